@@ -1,5 +1,6 @@
 """C01: sam toMultiAlign projects every query onto reference coordinates exactly."""
 import common as cm
+import cmdlayer
 import gen
 import samgen
 
@@ -68,3 +69,16 @@ def generate(ctx):
                 nontriv = True
         cs.append(make_case(cid, ref, recs, random_opts(rng, L), {"kind": "random", "nontrivial": nontriv}))
     return cs
+
+
+def extra(ctx, obl, cases, obs):
+    """the command through the built binary (cmd/*.go): binary = library entry point, and the option handling the command does itself"""
+    n = 2 if ctx.tier == "quick" else 12
+    _cmd_state["binary_runs"] = cmdlayer.sam_layer(ctx, 'toma', n)
+
+
+_cmd_state = {}
+
+
+def coverage_extra(ctx):
+    return {"binary_runs": _cmd_state.get("binary_runs", 0)}
